@@ -1,13 +1,12 @@
 (* Model of the require() machinery of pico8/build/build.py.
    Part 1 (property C12): the require-string filter of _evaluate_require and the candidate
    list of _locate_require_file.  Regenerated and pinned (Proofs/RequireProofs.v):
-   DEFAULT_LUA_PATH, the filter constants b'./' and b'/', the split and replace characters,
-   os.path.sep.  Executable definitions only. *)
+   DEFAULT_LUA_PATH, the tests of the filter (as a list of atoms), the split and replace
+   characters, os.path.sep.  Executable definitions only. *)
 From PV Require Import Base.Prelude Model.Paths.
 
 Section Locate.
-Variable filter_contains : bytes.     (* b'./' *)
-Variable filter_prefix : bytes.       (* b'/'  *)
+Variable atoms : list (Z * bytes * bytes).   (* the `or`-ed tests of the filter, as regenerated *)
 Variable path_sep : Z.                (* ';' of lua_path.split(';') *)
 Variable placeholder : Z.             (* '?' of lookup_p.replace('?', p) *)
 Variable default_path : bytes.        (* DEFAULT_LUA_PATH *)
@@ -16,9 +15,19 @@ Variable default_path : bytes.        (* DEFAULT_LUA_PATH *)
 Fixpoint contains (sub s : bytes) : bool :=
   starts_with sub s || match s with [] => false | _ :: r => contains sub r end.
 
+(* one test of the filter (gen/kernels_files.py):
+     (0,_,_)  not require_path               (1,c,_)  c in require_path
+     (2,c,_)  require_path.startswith(c)     (3,c,d)  c in require_path.split(d)   (d one byte) *)
+Definition eval_atom (req : bytes) (a : Z * bytes * bytes) : bool :=
+  let '(k, c, d) := a in
+  if k =? 0 then is_empty req
+  else if k =? 1 then contains c req
+  else if k =? 2 then starts_with c req
+  else if k =? 3 then existsb (zlist_eqb c) (split_on (hd 0 d) req)
+  else true.
+
 (* True when _evaluate_require does NOT raise LuaBuildError for the require string *)
-Definition require_filter (req : bytes) : bool :=
-  negb (contains filter_contains req || starts_with filter_prefix req).
+Definition require_filter (req : bytes) : bool := negb (existsb (eval_atom req) atoms).
 
 (* lua_path: --lua-path argument, else PICO8_LUA_PATH, else the default *)
 Definition effective_lua_path (arg env : option bytes) : bytes :=
